@@ -344,6 +344,36 @@ def load_known():
         return json.load(f)['entries']
 
 
+def ddmin_steps(prop, case, sig, budget_s=10.0):
+    """Delta-debug the 'steps' of a history case by replaying it (objects are addressed modulo the pool size, so any
+    sub-sequence is executable).  Returns the smallest failing case found within the budget."""
+    steps = case.get('steps') if isinstance(case, dict) else None
+    if not isinstance(steps, list) or len(steps) < 2:
+        return case
+    t_end = time.time() + budget_s
+
+    def fails(st_):
+        if time.time() > t_end:
+            return False
+        try:
+            return sig in replay_case(prop, dict(case, steps=st_))
+        except BaseException:                           # noqa: BLE001
+            return False
+    if not fails(steps):
+        return case
+    chunk = max(len(steps) // 2, 1)
+    while chunk >= 1 and time.time() < t_end:
+        i = 0
+        while i < len(steps) and time.time() < t_end:
+            cand = steps[:i] + steps[i + chunk:]
+            if cand and fails(cand):
+                steps = cand
+            else:
+                i += chunk
+        chunk //= 2
+    return dict(case, steps=steps)
+
+
 # ------------------------------------------------------------------ main
 def main(argv=None):
     ap = argparse.ArgumentParser(prog='check')
@@ -455,6 +485,8 @@ def main(argv=None):
                         case = out['last_target_case']
                 except BaseException:                   # noqa: BLE001
                     pass
+            if os.environ.get('VERIF_NO_SHRINK') != '1' and len(violations) < 12:
+                case = ddmin_steps(prop, case, sig, 8.0 if args.tier == 'quick' else 30.0)
             violations.append((sig, rec, case))
 
     os.makedirs(os.path.join(ROOT, 'replays', prop), exist_ok=True)
